@@ -868,6 +868,9 @@ def reread_with_tools(ctx, M, c, art, concrete_text, body_lines, expect, replay,
     text = "\n".join(script) + "\n"
     rc, out, err = run_osmt(text, timeout=30)
     ans = out.strip().split("\n")[-1] if out.strip() else ""
+    if rc == -9:
+        ctx.count("uncovered:timeout")
+        return True
     if "(error" in out or rc != 0 or (expect and ans != expect):
         ctx.violation(classify(M, c, art, text, "not-readable-by-opensmt"), "opensmt does not accept what it printed (%s): %s" % (art, out.strip()[:300]),
                       dict(replay, reread_script=text, reread_output=out))
@@ -880,7 +883,7 @@ def reread_with_tools(ctx, M, c, art, concrete_text, body_lines, expect, replay,
         rc2, out2 = run_ref(tool, text, timeout=20)
         ans2 = out2.strip().split("\n")[-1] if out2.strip() else ""
         ctx.count("foreign:%s:checked" % tool)
-        if "error" in out2.lower() or (expect and ans2 not in (expect, "unknown")):
+        if "error" in out2.lower() or (expect and ans2 in ("sat", "unsat") and ans2 != expect):
             ctx.violation(classify(M, c, art, text, "foreign-reject") + ":" + tool, "%s accepts the script's declarations and assertions but not what opensmt printed (%s): %s"
                           % (tool, art, out2.strip()[:300]), dict(replay, reread_script=text, reread_output=out2))
             return False
@@ -1377,6 +1380,9 @@ def check_dumps(ctx, M, c, base, qs, concrete, out):
             # opensmt reads its own dump and answers the same
             want = None
             rc, o, e = run_osmt(text, timeout=30)
+            if rc == -9:
+                ctx.count("uncovered:timeout")
+                continue
             ans = [l for l in o.strip().split("\n") if l in ("sat", "unsat", "unknown")]
             orig = [l.strip() for l in out.split("\n") if l.strip() in ("sat", "unsat", "unknown")]
             if "(error" in o or rc != 0 or not ans or (fi < len(orig) and ans[0] != orig[fi]):
